@@ -290,7 +290,15 @@ pub fn spec_for(id: &str, tier: Tier, cfg: &Cfg) -> Spec {
     let closing = closes(cfg);
     // bound 2 where orbits close and chunks are small (both tiers); in the quick tier the second
     // layer offers the ratio/chunk/reset alphabet only
-    let bound = if closing && cfg.chunk <= 8 { 2 } else { 1 };
+    // thorough: a third deviation on the smallest closing configurations (1-frame chunks, short
+    // filters), with the ratio/chunk/reset alphabet in the third layer
+    let bound = if !q && closing && cfg.chunk == 1 && cfg.filter_len() <= 8 && cfg.max_rel <= 2.0 {
+        3
+    } else if closing && cfg.chunk <= 8 {
+        2
+    } else {
+        1
+    };
     let alpha_deep = if q { Alpha::Ratio } else { alpha };
     let big = cfg.kind.is_async() && cfg.chunk >= 1024;
     let horizon = if big {
